@@ -605,11 +605,144 @@ def generate(repo):
     return rows, errors
 
 
+# ------------------------------------------------------------------------------------------------
+# product openings: `output(V, threshold=...)` where V is a local product of sharings must be rerandomised
+# (zero sharing added, or reshared) before the opening on every path, i.e. for all field sizes
+
+ZERO_SHARING = ('pseudorandom_share_zero', 'np_pseudorandom_share_0')
+MODE_SWITCH = 'self.options.no_prss'       # a condition on the randomness mode, not on the field size
+
+
+def _strip(e):
+    while True:
+        if isinstance(e, ast.Await):
+            e = e.value
+        elif isinstance(e, ast.Call) and len(e.args) == 1 and not e.keywords and \
+                (isinstance(e.func, ast.Name) or (isinstance(e.func, ast.Attribute) and e.func.attr == 'array')):
+            e = e.args[0]          # Zp(...), field(...), Zp.array(...)
+        elif isinstance(e, ast.ListComp):
+            e = e.elt
+        else:
+            return e
+
+
+def is_product_expr(e):
+    e = _strip(e)
+    if isinstance(e, ast.BinOp):
+        if isinstance(e.op, ast.Mult):
+            return not (isinstance(e.left, ast.Constant) or isinstance(e.right, ast.Constant))
+        if isinstance(e.op, ast.Pow):
+            return isinstance(e.right, ast.Constant) and e.right.value >= 2
+        if isinstance(e.op, (ast.Add, ast.Sub)):
+            return is_product_expr(e.left) or is_product_expr(e.right)
+    return False
+
+
+def _zero_sharing_names(fn, stmts):
+    """local names assigned from thresha.pseudorandom_share_zero / np_pseudorandom_share_0"""
+    names = set()
+    for st, _ in stmts:
+        if isinstance(st, ast.Assign) and isinstance(st.value, ast.Call) and \
+                isinstance(st.value.func, ast.Attribute) and st.value.func.attr in ZERO_SHARING:
+            names.update(targets_of(st))
+    return names
+
+
+def _mentions_zero_sharing(e, znames):
+    inner = e
+    while isinstance(inner, ast.Await) or (isinstance(inner, ast.Call) and len(inner.args) == 1 and not inner.keywords):
+        inner = inner.value if isinstance(inner, ast.Await) else inner.args[0]
+    if isinstance(inner, ast.ListComp):
+        # only the element counts; loop variables bound (through zip) to a zero-sharing list are zero-sharing names
+        zn = set(znames)
+        for g in inner.generators:
+            if isinstance(g.iter, ast.Call) and unp(g.iter.func) == 'zip' and isinstance(g.target, ast.Tuple):
+                for t_, a_ in zip(g.target.elts, g.iter.args):
+                    if isinstance(a_, ast.Name) and a_.id in znames and isinstance(t_, ast.Name):
+                        zn.add(t_.id)
+            elif isinstance(g.iter, ast.Name) and g.iter.id in znames and isinstance(g.target, ast.Name):
+                zn.add(g.target.id)
+        return _mentions_zero_sharing(inner.elt, zn)
+    for n in ast.walk(e):
+        if isinstance(n, ast.Call) and isinstance(n.func, ast.Attribute) and n.func.attr in ZERO_SHARING:
+            return True
+        if isinstance(n, ast.Name) and n.id in znames:
+            return True
+    return False
+
+
+def _covers_all(residuals):
+    """Do the conditions under which rerandomisation happens cover every case?  Only a both-branches split on
+    the randomness mode counts as covering; any other condition (field size) makes it conditional."""
+    if any(not r for r in residuals):
+        return True
+    yes = [r[1:] for r in residuals if r[0] == 'if ' + MODE_SWITCH]
+    no = [r[1:] for r in residuals if r[0] == 'else ' + MODE_SWITCH]
+    return bool(yes) and bool(no) and _covers_all(yes) and _covers_all(no)
+
+
+def product_rows(repo):
+    rows, errors = [], []
+    for mod, rel in MODULES.items():
+        tree = ast.parse(open(os.path.join(repo, rel)).read())
+        for fn, calls in internal_sites(tree):
+            stmts = stmts_with_cond(fn)
+            for i, call in enumerate(calls):
+                if not any(kw.arg == 'threshold' for kw in call.keywords):
+                    continue
+                key = '%s.%s#%d' % (mod, fn.name, i)
+                try:
+                    arg = call.args[0]
+                    if not isinstance(arg, ast.Name):
+                        raise Unclassified('opened expression %s is not a local variable' % unp(arg))
+                    V = arg.id
+                    znames = _zero_sharing_names(fn, stmts)
+                    site_label = None
+                    for st, label in stmts:
+                        if any(n is call for n in ast.walk(st)):
+                            site_label = label        # innermost statement wins (later entries are nested deeper)
+                    product, rer, conds = False, [], []
+                    for st, label in stmts:
+                        if st.lineno >= call.lineno or V not in targets_of(st):
+                            continue
+                        k = 0
+                        while k < min(len(label), len(site_label)) and label[k] == site_label[k]:
+                            k += 1
+                        residual = label[k:]
+                        val = st.value
+                        if isinstance(st, ast.Assign) and is_product_expr(val):
+                            product = True
+                            if _mentions_zero_sharing(val, znames):
+                                rer.append(residual)
+                        elif isinstance(st, ast.Assign) and isinstance(_strip(val), ast.Call) and \
+                                unp(_strip(val).func) == 'self._reshare' and unp(_strip(val).args[0]) == V:
+                            rer.append(residual)
+                            conds.append(' and '.join(residual))
+                        elif isinstance(st, ast.AugAssign) and isinstance(st.op, ast.Add) and _mentions_zero_sharing(val, znames):
+                            rer.append(residual)
+                            conds.append(' and '.join(residual))
+                        else:
+                            raise Unclassified('assignment to the opened variable not understood: %s' % unp(st))
+                    if not product:
+                        raise Unclassified('no defining product found for opened variable %r' % V)
+                    how = 'RAlways' if rer and _covers_all(rer) else ('RConditional' if rer else 'RNever')
+                    rows.append({'site': key, 'func': fn.name, 'line': call.lineno, 'opened': V, 'product': True, 'rerand': how,
+                                 'threshold': unp([kw.value for kw in call.keywords if kw.arg == 'threshold'][0]),
+                                 'conditions': sorted(set(c for c in conds if c))})
+                except Unclassified as exc:
+                    errors.append({'site': key, 'line': call.lineno, 'error': 'product opening unclassified: %s' % exc})
+    return rows, errors
+
+
+def coq_pident(site):
+    return 'prow_' + ''.join(c if c.isalnum() else '_' for c in site)
+
+
 def coq_ident(site):
     return 'row_' + ''.join(c if c.isalnum() else '_' for c in site)
 
 
-def emit(rows, errors, out):
+def emit(rows, errors, out, prows=()):
     L = ['(* GENERATED by harness/gen_mask_table.py from mpyc/runtime.py, random.py, statistics.py - do not edit *)',
          'From Coq Require Import ZArith List String.', 'Require Import MPyC.Stat.', 'Import ListNotations.',
          'Local Open Scope Z_scope.', 'Local Open Scope string_scope.', '']
@@ -626,6 +759,13 @@ def emit(rows, errors, out):
         L.append('')
     L.append('Definition mask_rows : list mrow := [%s].' % '; '.join(coq_ident(r['site']) for r in rows))
     L.append('')
+    for r in prows:
+        L.append('(* %s line %d: output(%s, threshold=%s); rerandomised: %s %s *)' % (
+            r['site'], r['line'], r['opened'], r['threshold'], r['rerand'], '; '.join(r['conditions']).replace('*)', '* )')))
+        L.append('Definition %s : prow := MkPRow "%s" %s %s.' % (
+            coq_pident(r['site']), r['site'], 'true' if r['product'] else 'false', r['rerand']))
+    L.append('Definition product_rows : list prow := [%s].' % '; '.join(coq_pident(r['site']) for r in prows))
+    L.append('')
     L.append('(* translator errors: %d *)' % len(errors))
     for e in errors:
         L.append('(* ERROR %s *)' % json.dumps(e).replace('*)', '* )'))
@@ -641,7 +781,11 @@ if __name__ == '__main__':
     out = sys.argv[2] if len(sys.argv) > 2 else os.path.join(
         os.path.dirname(os.path.dirname(os.path.abspath(__file__))), 'coq', 'gen', 'MaskTable.v')
     rows, errors = generate(repo)
-    emit(rows, errors, out)
+    prows, perrors = product_rows(repo)
+    errors = errors + perrors
+    emit(rows, errors, out, prows)
+    for r in prows:
+        print('PRODUCT %-45s threshold=%-18s %-12s %s' % (r['site'], r['threshold'], r['rerand'], r['conditions']))
     for r in rows:
         print('%-70s %-14s %-12s bound=%s scale=%s' % (r['site'], r['kind'], r['mode'], r['bound_src'], coq_of(r['scale'])))
     for e in errors:
